@@ -117,7 +117,12 @@ def gen(seed: int, tier: str, focus: str) -> dict[str, Any]:
               "early_plain": rng.random() < 0.5,
               "at": rng.choice([0.0005, 0.0015, 0.05, 0.2]), "second_life": rng.random() < 0.8}
     ops.sort(key=lambda o: o["t"])
+    ind_during_stop = None
+    if focus == "C33" and rng.random() < 0.5:
+        # a group telegram of another bus device reaches the client while XKNX.stop() waits for the DisconnectResponse
+        ind_during_stop = {"at": rng.choice([0.05, 0.2, 0.5]), "lag": rng.choice([0.8, 0.8, None])}
     cfg = {"mode": "e2e", "focus": focus, "ds": ds, "transport": transport, "horizon": horizon, "batch": 1 if rng.random() < 0.8 else 3,
+           "ind_during_stop": ind_during_stop,
            "rate_limit": rng.choice([0, 20, 50]), "auto_reconnect_wait": rng.choice([1, 3]),
            "con_lat": rng.choice([0.002, 0.02, 0.3]), "final_reconnect": rng.random() < 0.5,
            "local_port": rng.choice([0, 53000]), "route_back": transport == "udp" and rng.random() < 0.2}
@@ -441,8 +446,35 @@ def run(plan: dict[str, Any]):
                     chs.via[1].send_to_client(fr)
                 R.extra_faults["plain_frame_to_keyed_address_during_stop"] += 1
             loop.after(ds["at"], late_plain, label="op")
+        ids_ = cfg.get("ind_during_stop")
+        if ids_ and not ds:
+            if ids_["lag"] is None:
+                gw.script = dict(gw.script, disconnect=[{"k": "drop"}])
+            else:
+                gw.script = dict(gw.script, disconnect=[{"k": "ok", "lat": ids_["lag"]}])
+
+            def late_ind(chs=gw.channels.get(client_cid())):
+                if chs is None:
+                    return
+                fr = W.tunnelling_request(chs.cid, chs.tx_seq, W.cemi_ldata(W.L_DATA_IND, BUS_DEV, GA_IN,
+                                                                          tpci_apci=W.gv_write((9003).to_bytes(2, "big"))))
+                chs.tx_seq = (chs.tx_seq + 1) & 0xFF
+                if chs.via[0] == "udp":
+                    gw.sock.sendto(fr, chs.data)
+                else:
+                    chs.via[1].send_to_client(fr)
+                R.extra_faults["group_telegram_received_during_stop"] += 1
+            loop.after(ids_["at"], late_ind, label="op")
         st = loop.create_task(stopper())
         await asyncio.wait([st], timeout=60.0)
+        if st.done() and not st.cancelled() and st.exception() is None:
+            # stopped: nothing is left behind that a later join() - or a second stop(), which joins first - would wait for
+            jt = loop.create_task(xknx.join())
+            await asyncio.wait([jt], timeout=5.0)
+            obs["join_after_stop"] = jt.done()
+            if not jt.done():
+                jt.cancel()
+                await asyncio.gather(jt, return_exceptions=True)
         if ds and ds["second_life"] and st.done() and not st.cancelled() and st.exception() is None:
             # the same XKNX object is started again: whatever the first life left behind must not surface now
             gw.script = {"expire_channels_after": 120.0}
@@ -615,6 +647,10 @@ def judge_c33(R, obs):
                   "connected, all faults stopped long ago, but the telegram queued then never reached the gateway")
     if obs["unfinished_before_stop"] not in (0, None) and obs["final"].get("state") == "CONNECTED":
         R.violate("C33.e2e-liveness", "queue-not-drained", f"{obs['unfinished_before_stop']} telegrams not marked done 8 s after the last one was queued")
+    if obs.get("join_after_stop") is False:
+        R.violate("C33.e2e-liveness", "join-blocks-after-stop",
+                  "XKNX.stop() returned, but a join() afterwards does not: a telegram was left in the queue unaccounted "
+                  f"(unfinished={obs['unfinished']})")
     if obs["stop_ret"] is None:
         R.violate("C33.e2e-liveness", "stop-did-not-return", f"stop() did not return within 60 s (unfinished={obs['unfinished']}, "
                   f"state before {obs['final'].get('state')})")
